@@ -156,6 +156,54 @@ def h_direct(c):
                        c.params['qpm'])
   start = c.params.get('start', 0)
   spb = 4 * spq
+  if kind == 'perf':
+    # three notes A, B (overlapping A), C (after A's release); velocity bins
+    # chosen freely; a VELOCITY event exactly where the bin changes
+    pl = c.mod('performance_lib')
+    PE = pl.PerformanceEvent
+    nb = c.params['bins']
+    bins_ = [c.choice('bin%d' % i, list(range(1, nb + 1))) for i in range(3)]
+    s1, s2 = c.choice('s1', [1, 2]), c.choice('s2', [1, 3])
+    metric = c.params.get('metric', False)
+    ev = []
+    cur = None
+    def on(pitch, b):
+      nonlocal cur
+      if b != cur:
+        ev.append(PE(PE.VELOCITY, b))
+        cur = b
+      ev.append(PE(PE.NOTE_ON, pitch))
+    on(60, bins_[0])
+    ev.append(PE(PE.TIME_SHIFT, s1))
+    on(64, bins_[1])
+    ev.append(PE(PE.TIME_SHIFT, s2))
+    ev.append(PE(PE.NOTE_OFF, 60))
+    on(67, bins_[2])
+    ev.append(PE(PE.TIME_SHIFT, s1))
+    ev.append(PE(PE.NOTE_OFF, 64))
+    ev.append(PE(PE.TIME_SHIFT, s2))
+    ev.append(PE(PE.NOTE_OFF, 67))
+    if metric:
+      seq0 = pl.MetricPerformance(steps_per_quarter=spq, start_step=start,
+                                  num_velocity_bins=nb)
+    else:
+      seq0 = pl.Performance(steps_per_second=100, start_step=start,
+                            num_velocity_bins=nb)
+    for e in ev:
+      seq0.append(e)
+    if metric:
+      q = sl.quantize_note_sequence(seq0.to_sequence(qpm=qpm), spq)
+      seq1 = pl.MetricPerformance(q, start_step=start, num_velocity_bins=nb)
+    else:
+      q = sl.quantize_note_sequence_absolute(seq0.to_sequence(), 100)
+      seq1 = pl.Performance(q, start_step=start, num_velocity_bins=nb)
+    a = [(e.event_type, e.event_value) for e in seq0]
+    b = [(e.event_type, e.event_value) for e in seq1]
+    c.check(a == b, 'same performance events after the round trip')
+    c.check(seq0.start_step == seq1.start_step, 'same start step')
+    c.cover('third note returns to the first note\'s bin',
+            bins_[0] == bins_[2] != bins_[1])
+    return
   if kind == 'drums':
     dl = c.mod('drums_lib')
     opts = [frozenset(), frozenset([36]), frozenset([38, 42])]
@@ -781,6 +829,9 @@ def jobs(tier):
   add('h_direct', kind='drums', L=6, spq=1, qpm=97.3, start=4, budget=600)
   add('h_direct', kind='melody', L=5, spq=1, qpm=120, budget=600)
   add('h_direct', kind='melody', L=6, spq=1, qpm=97.3, start=4, budget=900)
+  add('h_direct', kind='perf', L=0, spq=4, qpm=120, bins=3, budget=600)
+  add('h_direct', kind='perf', L=0, spq=12, qpm=93.7, bins=3, start=96,
+      metric=True, budget=600)
   if deep:
     for sps in (10, 31, 100, 250):
       for bins in (0, 1, 4, 32, 127):
